@@ -52,7 +52,7 @@ def stro_cfgs(tier, base_id):
 def extra(chk):
     tier = chk.tier
     trs = S.pmap(W.run_wrap, WC.gpo_cfgs(tier, 1300000)[: (12 if tier == "quick" else 80)] + WC.poo_cfgs(tier, 1310000)[: (12 if tier == "quick" else 80)])
-    chk.validate("Trace_Wrap.tla", "Trace_Wrap.cfg", trs, "wrap", own=["gpo.schedule", "gpo.score", "poo.route", "poo.score", "poo.times"], nontrivial=lambda t: t["learners"] >= 2)
+    chk.validate("Trace_Wrap.tla", "Trace_Wrap.cfg", trs, "wrap", own=["gpo.schedule", "gpo.point", "gpo.score", "poo.route", "poo.score", "poo.times"], nontrivial=lambda t: t["learners"] >= 2)
     own = ["credit.", "stats."]
     k = 18 if tier == "quick" else 150
     trs = [t for t in S.pmap(SS.run_soo, SC.random_cfgs(tier, 1320000)[:k]) if "skipped" not in t]
